@@ -7,7 +7,7 @@ integer pair (S, e) and must be a member of the model's set of possible results 
 tapes (flt_add_all / flt_mul_all / flt_cmp_all / flt_input / flt_output evaluated by vm_compute).
 Oracle: the property's bounds with exact fractions.Fraction arithmetic on the implementation outputs.
 """
-import math
+import math, re
 from fractions import Fraction as Fr
 from lib.core import zlit
 
@@ -26,12 +26,15 @@ MANIFEST = {
             'm=2: receivers get the exact masked value and agree, non-receivers get None.',
     'note': 'PARTIAL: no Coq theorem for addition/subtraction/comparisons (flt_add is modelled and tied by the correspondence '
             'run, but its invariant/add_bound/cmp_exact_outside_band are not proved) nor for division (runtime._rec Newton '
-            'iteration not modelled; / is covered by the implementation oracle only). Trusted: Coq kernel+vm_compute; '
+            'iteration not modelled; / is covered by the implementation oracle only). Harness: every run uses a fresh simulator/event '
+            'loop; there is no wall-clock verdict (7200 s last-resort guard, iteration-based idle detection); an unfinished batch keeps '
+            'its completed prefix, the first unfinished job is re-run alone in a fresh simulator and reported with the real exception '
+            'captured from the loop exception handler. Trusted: Coq kernel+vm_compute; '
             'hand-written model Flt.v at value level (sharing, resharing, to_bits/find/unit_vector modelled by their specified '
             'results; secint exponent comparisons assumed exact, which holds while |e1-e2| < 2^E and f <= 2^E). The model uses '
             'exact ceil(log2|x|) = log2_up|M|+q, as the constructor does since fix 21d2986 (math.frexp / int.bit_length; '
             'F-C05-2 fixed). Proved constants 1 '
-            '(I/O) and 4 (mul) are smaller than the 2 / 16 of the property. Open known findings: F-C05-1 exact-zero operand with '
+            '(I/O) and 4 (mul) are smaller than the 2 / 16 of the property. Open known findings: F-C05-5 reciprocal of a significand exactly 1/2 not renormalised (output assert, tape-dependent), F-C05-1 exact-zero operand with '
             'larger exponent, F-C05-3 cancellation zero whose exponent '
             'leaves the exponent type, F-C05-4 types with f > 2^E (e.g. SecFlt(8)).',
     'technique': 'Coq proof (Z/Q arithmetic, tape-quantified) + vm_compute set-membership correspondence + exact Fraction oracle '
@@ -69,12 +72,12 @@ def _apply(op, x, y):
     raise ValueError(op)
 
 
-def make_prog(s, E, jobs):
+def make_prog(s, E, jobs, sink=None):
     f = s - 1
 
     async def prog(mpc, mods, pid):
         secflt = mpc.SecFlt(s=s, e=E)
-        out = []
+        out = sink.setdefault(pid, []) if sink is not None else []   # progress is visible to the driver
 
         async def opn(z):
             S = await mpc.output(z.share[0])
@@ -87,6 +90,12 @@ def make_prog(s, E, jobs):
         async def rec(op, x, y, z):
             r = {'op': op, 'x': await opn(x), 'y': (await opn(y)) if y is not None else None,
                  'z': await opn(z)}
+            Sz = abs(r['z'][0])
+            if Sz != 0 and not (1 << (f - 1)) <= Sz <= (1 << f):
+                # unnormalised result: SecureFloat._output would raise its AssertionError inside an MPyC coroutine, which
+                # stops this party's event loop; the checker reports 'not-normalised' from the opened pair instead
+                r['out'] = None
+                return r
             o = await mpc.output(z)
             r['out'] = o.hex() if isinstance(o, float) else repr(o)
             return r
@@ -137,26 +146,98 @@ def make_prog(s, E, jobs):
     return prog
 
 
-def run_config(ctx, m, t, no_prss, s, E, jobs, seed):
+GUARD_S = 7200     # last-resort wall-clock guard (never a verdict by itself: the job is re-run in a fresh simulator)
+
+
+def run_once(m, t, no_prss, seed, factory, jobs):
+    """One fresh simulator (fresh event loop, fresh party copies) running factory(jobs, sink).
+    Returns (per-party results or None on failure, sink = per-party completed prefix, captured exceptions)."""
+    import asyncio, traceback
     from lib.sim import Sim
+    sink, captured = {}, []
     sim = Sim(m=m, t=t, no_prss=no_prss, seed=seed, log_messages=False, track_tasks=False)
     try:
         sim.start()
-        prog = make_prog(s, E, jobs)
+
+        def handler(loop, context):       # exceptions raised inside MPyC coroutines end up here (asyncoro._reconcile
+            exc = context.get('exception')  # re-raises them in a done-callback and STOPS the loop)
+            tb = ''.join(traceback.format_exception(type(exc), exc, exc.__traceback__))[-1500:] if exc is not None else ''
+            captured.append({'exc': type(exc).__name__ if exc is not None else 'None', 'repr': repr(exc)[:300],
+                             'message': str(context.get('message'))[:200], 'traceback': tb})
+        sim.loop.set_exception_handler(handler)
+        prog = factory(jobs, sink)
         if m == 1:
             # no network: drive the single party directly (Sim.run's idle detection needs traffic)
-            import asyncio
             try:
-                res = [sim.loop.run_until_complete(asyncio.wait_for(prog(sim.mpcs[0], sim.mods[0], 0), 600))]
-            except Exception as exc:  # noqa
-                res = [('EXC', repr(exc)[:300])]
+                res = [sim.loop.run_until_complete(asyncio.wait_for(prog(sim.mpcs[0], sim.mods[0], 0), GUARD_S))]
+            except BaseException as exc:  # noqa   (loop stopped by MPyC after an exception in a coroutine, or the guard)
+                if isinstance(exc, (KeyboardInterrupt, SystemExit)):
+                    raise
+                captured.append({'exc': type(exc).__name__, 'repr': repr(exc)[:300], 'message': 'driver', 'traceback': ''})
+                res = None
         else:
-            res = sim.run(prog, idle_limit=3000)
-        if all(isinstance(r, list) for r in res):
+            res = sim.run(prog, idle_limit=20000)       # idle_limit counts delivery rounds without traffic, not time
+            if not all(isinstance(r, list) for r in res):
+                captured.append({'exc': 'Incomplete', 'repr': repr([r if not isinstance(r, list) else 'ok' for r in res])[:300],
+                                 'message': 'driver', 'traceback': ''})
+                res = None
+        if res is not None:
             sim.shutdown()
     finally:
         sim.close()
-    return res
+    return res, sink, captured
+
+
+def run_jobs(ctx, m, t, no_prss, seed, factory, jobs, exc_record):
+    """Run all jobs; when a run does not complete, keep the completed prefix, re-run the first unfinished job ALONE in a
+    fresh simulator (so neither leftover state nor a wall-clock guard can decide), record the real exception if it
+    reproduces, and continue with the remaining jobs in another fresh simulator.  Returns per-party result lists."""
+    per_party = [[] for _ in range(m)]
+    start = 0
+    rerun = 0
+    while start < len(jobs):
+        res, sink, cap = run_once(m, t, no_prss, seed + 1009 * rerun, factory, jobs[start:])
+        if res is not None:
+            for p in range(m):
+                per_party[p].extend(res[p])
+            break
+        rerun += 1
+        k = min(len(sink.get(p, [])) for p in range(m))
+        for p in range(m):
+            per_party[p].extend(sink.get(p, [])[:k])
+        bad = jobs[start + k]
+        real0 = [c for c in cap if c['message'] != 'driver']
+        res1, _, cap1 = run_once(m, t, no_prss, seed + 1009 * rerun + 1, factory, [bad])
+        if real0:
+            # an exception raised by the implementation inside an MPyC coroutine (asyncoro._reconcile stops the loop):
+            # a real, possibly tape-dependent failure of this job -- reported with the real exception
+            info = dict(real0[0], repr=real0[0]['repr'] + (' [completes alone on another tape]' if res1 is not None
+                                                             else ' [reproduced alone in a fresh simulator]'))
+            ctx.log('job %r raised inside the implementation: %s' % (bad, info['repr']))
+            for p in range(m):
+                per_party[p].append(exc_record(info))
+        elif res1 is not None:
+            ctx.notes.append('job %r did not complete inside a batch but completed alone in a fresh simulator (batch exception: %s)' % (
+                bad, [c['repr'] for c in cap][:2]))
+            for p in range(m):
+                per_party[p].extend(res1[p])
+        else:
+            real = [c for c in cap1 if c['message'] != 'driver'] or [c for c in cap if c['message'] != 'driver'] or cap1
+            info = real[0]
+            ctx.log('job %r fails reproducibly: %s' % (bad, info['repr']))
+            for p in range(m):
+                per_party[p].append(exc_record(info))
+        start += k + 1
+    return per_party
+
+
+def _exc_recs(info):
+    return [{'op': 'EXC', 'exc': 'Assert' if info['exc'] == 'AssertionError' else info['exc'], 'msg': info['repr'],
+             'traceback': info['traceback']}]
+
+
+def run_config(ctx, m, t, no_prss, s, E, jobs, seed):
+    return run_jobs(ctx, m, t, no_prss, seed, lambda js, sink: make_prog(s, E, js, sink), jobs, _exc_recs)
 
 
 # ------------------------------------------------------------------------------------------------
@@ -349,13 +430,17 @@ class Checker:
         for ri, r in enumerate(recs):
             op = r['op']
             if op == 'EXC':
-                self.viol(None, 'exception %s in %s' % (r['exc'], job[0]), {'job': repr(job), 'rec': r})
+                mm = re.match(r"AssertionError\(\(\[(-?[0-9.e+-]+)\], \[(-?\d+)\]\)\)", r.get('msg', ''))
+                has_div = (job[0] == 'bin' and 'div' in job[3]) or (job[0] == 'rop' and job[3] == 'div')
+                if mm and has_div and 1 < abs(Fr(float(mm.group(1)))) <= 1 + 4 * u:
+                    self.viol('div reciprocal-not-normalised', 'output-assert', {'job': repr(job), 'rec': r})
+                else:
+                    self.viol(None, 'exception %s in %s' % (r['exc'], job[0]), {'job': repr(job), 'rec': r})
                 continue
             z = tuple(r['z'])
-            out = float.fromhex(r['out'])
             vz = val(z, f)
-            # output = masked value, exact
-            if Fr(out) != vz:
+            # output = masked value, exact (skipped by the driver for unnormalised results, reported below)
+            if r['out'] is not None and Fr(float.fromhex(r['out'])) != vz:
                 self.viol(None, 'output-not-exact', {'job': repr(job), 'rec': r})
             if op == 'io':
                 a = job[1]
@@ -403,7 +488,11 @@ class Checker:
                     self.meta.append(('set', job, r, bool(bit)))
                 continue
             if not self.norm_ok(z):
-                self.viol(cls, 'not-normalised ' + op, det)
+                if op == 'div' and abs(y[0]) == 1 << (f - 1) and (1 << f) < abs(z[0]) <= (1 << f) + 4:
+                    # divisor significand exactly 1/2: reciprocal() returns 1 + ulp for some truncation tapes
+                    self.viol('div reciprocal-not-normalised', 'not-normalised', det)
+                else:
+                    self.viol(cls, 'not-normalised ' + op, det)
             if op in ('add', 'sub'):
                 bound = 16 * u * max(abs(vx), abs(vy))
                 if abs(vz - ex) > bound:
@@ -488,12 +577,12 @@ def subset_specs(m):
     return [0, m - 1, [0], [2], [1, 2], [2, 0]] + ([[1, 3, 0]] if m > 3 else [])
 
 
-def make_out_prog(s, E, items, specs):
+def make_out_prog(s, E, items, specs, sink=None):
     f = s - 1
 
     async def prog(mpc, mods, pid):
         secflt = mpc.SecFlt(s=s, e=E)
-        out = []
+        out = sink.setdefault(pid, []) if sink is not None else []
         for item in items:
             try:
                 a, b, op = item
@@ -518,7 +607,6 @@ def make_out_prog(s, E, items, specs):
 
 
 def check_subset_outputs(ctx, m, t, no_prss, s, E):
-    from lib.sim import Sim
     rng = ctx.rng
     g = Gen(rng, s, E)
     f, u = s - 1, Fr(1, 2**(s - 1))
@@ -535,17 +623,8 @@ def check_subset_outputs(ctx, m, t, no_prss, s, E):
     specs = subset_specs(m)
     cfg = 'm=%d t=%d %s' % (m, t, 'no-prss' if no_prss else 'prss')
     tname = 'SecFlt(s=%d,e=%d)' % (s, E)
-    sim = Sim(m=m, t=t, no_prss=no_prss, seed=ctx.seed + 7 * m + s, log_messages=False, track_tasks=False)
-    try:
-        sim.start()
-        res = sim.run(make_out_prog(s, E, items, specs), idle_limit=3000)
-        if all(isinstance(r, list) for r in res):
-            sim.shutdown()
-    finally:
-        sim.close()
-    if any(not isinstance(r, list) for r in res):
-        ctx.violation('output-subset run-failed %s' % tname, {'config': cfg, 'results': [repr(r)[:300] for r in res]})
-        return
+    res = run_jobs(ctx, m, t, no_prss, ctx.seed + 7 * m + s, lambda its, sink: make_out_prog(s, E, its, specs, sink), items,
+                   lambda info: {'exc': info['exc'], 'msg': info['repr'], 'traceback': info['traceback']})
     nchk = 0
     for ii, item in enumerate(items):
         recs = [res[p][ii] for p in range(m)]
@@ -637,15 +716,19 @@ def run(ctx):
             for v in (2.0**1023, -2.0**1023, 2**1023, -(2**1023), math.nextafter(2.0**1023, 0.0), math.nextafter(2.0**1022, math.inf),
                       2.0**-1022, -math.nextafter(2.0**-1021, 0.0), 2**1023 - 2**970, 2**60 + 1, -(2**53 + 1)):
                 jobs.append(('io', v))
+        if m == 1 and E <= 8:
+            # divisors whose significand is exactly 1/2 (floats just above a power of two), dividends with |significand| = 1
+            for _ in range(ctx.n(12, 60)):
+                kx, ky = rng.randint(-2, 2), rng.randint(-2, 2)
+                yv = math.ldexp(1.0 + 2.0**-(s + 2), ky) * rng.choice([1, -1])
+                xv = rng.choice([math.ldexp(1.0, kx), -math.ldexp(1.0, kx), g.flt(e=kx)])
+                jobs.append(('bin', xv, yv, ['div'], 'recip-half'))
         if (s, E) == (11, 5):      # F-C05-3 replay: cancellation zero with exponent -23 outside the 5-bit exponent type
             jobs.append(('chain', 1e-4, 1e-4, 30000.0, 'sub', 'add', 'l'))
         cfg = 'm=%d t=%d %s' % (m, t, 'no-prss' if np_ else 'prss')
         res = run_config(ctx, m, t, np_, s, E, jobs, ctx.seed + 31 * m + s)
         ck = Checker(ctx, s, E, cfg)
         checkers.append(ck)
-        if any(not isinstance(r, list) for r in res):
-            ck.viol(None, 'run-failed', {'results': [repr(r)[:300] for r in res]})
-            continue
         if any(r != res[0] for r in res[1:]):
             ck.viol(None, 'parties-disagree', {'results': [repr(r)[:300] for r in res]})
         nrec = 0
@@ -675,13 +758,10 @@ def run(ctx):
                 ('bin', 0.75, -0.625, ['add', 'mul'], 'random'), ('bin', 1.0, 0.5, ['add', 'div'], 'pow2')]
         res = run_config(ctx, 1, 0, False, s, E, jobs, ctx.seed)
         ck = Checker(ctx, s, E, 'm=1 t=0 prss', narrow=True)
-        if not isinstance(res[0], list):
-            ck.viol(None, 'run-failed', {'results': repr(res)[:300]})
-        else:
-            for job, recs in zip(jobs, res[0]):
-                ck.check_job(job, recs)
-                for r in recs:
-                    ctx.case([s, E, 'narrow', r['op'], r.get('x'), r.get('y')], kind='narrow-exponent type')
+        for job, recs in zip(jobs, res[0]):
+            ck.check_job(job, recs)
+            for r in recs:
+                ctx.case([s, E, 'narrow', r['op'], r.get('x'), r.get('y')], kind='narrow-exponent type')
 
     # ---- correspondence with the Coq model
     exprs = [e for ck in checkers for e in ck.exprs]
